@@ -71,6 +71,7 @@ type Row struct {
 	closedBy []string  // names of the channels closed after this access in its function (for chanhb)
 	ownWrite bool      // a write to the same location precedes in the same root (program order)
 	isCall   bool      // the access is a call through a func-typed field
+	baseVar  types.Object // the variable the access path starts from, when it is a parameter of the unit
 	roots    *[]*root
 }
 
@@ -89,6 +90,9 @@ type callSite struct {
 	held   []Lock
 	caller *unit
 	isGo   bool
+	direct bool           // a call expression with its argument list (not a method value / stored function)
+	argObj []types.Object // per argument: the variable passed, if the argument is a plain identifier
+	argNew []bool         // per argument: a local of the caller that holds an object under construction
 }
 
 type unit struct {
@@ -765,7 +769,8 @@ func (w *walker) call(c *ast.CallExpr, isGo, isDefer bool) {
 			if isGo {
 				h = nil
 			}
-			w.pc.sites = append(w.pc.sites, callSite{callee: sel.Obj(), held: h, caller: w.unit, isGo: isGo})
+			ao, an := w.argInfo(c)
+			w.pc.sites = append(w.pc.sites, callSite{callee: sel.Obj(), held: h, caller: w.unit, isGo: isGo, direct: true, argObj: ao, argNew: an})
 		} else if sel != nil && sel.Kind() == types.FieldVal {
 			n := len(w.pc.rows)
 			w.access(f, false) // calling a func-typed field reads it
@@ -778,7 +783,8 @@ func (w *walker) call(c *ast.CallExpr, isGo, isDefer bool) {
 				if isGo {
 					h = nil
 				}
-				w.pc.sites = append(w.pc.sites, callSite{callee: o, held: h, caller: w.unit, isGo: isGo})
+				ao, an := w.argInfo(c)
+				w.pc.sites = append(w.pc.sites, callSite{callee: o, held: h, caller: w.unit, isGo: isGo, direct: true, argObj: ao, argNew: an})
 			}
 		}
 		w.expr(f.X, false)
@@ -788,7 +794,8 @@ func (w *walker) call(c *ast.CallExpr, isGo, isDefer bool) {
 			if isGo {
 				h = nil
 			}
-			w.pc.sites = append(w.pc.sites, callSite{callee: o, held: h, caller: w.unit, isGo: isGo})
+			ao, an := w.argInfo(c)
+			w.pc.sites = append(w.pc.sites, callSite{callee: o, held: h, caller: w.unit, isGo: isGo, direct: true, argObj: ao, argNew: an})
 			if _, isVar := o.(*types.Var); isVar {
 				w.ident(f, false)
 			}
@@ -898,6 +905,39 @@ func (w *walker) funcLitUnit(fl *ast.FuncLit, held []Lock, newRoot, multi bool, 
 	w.held, w.curRoot, w.recvd, w.unit, w.deferCl = savedHeld, savedRoot, savedRecv, savedUnit, savedDefer
 }
 
+// argInfo describes the arguments of a direct call for the fresh-parameter rule.
+func (w *walker) argInfo(c *ast.CallExpr) ([]types.Object, []bool) {
+	objs := make([]types.Object, len(c.Args))
+	fresh := make([]bool, len(c.Args))
+	for i, a := range c.Args {
+		if id, ok := a.(*ast.Ident); ok {
+			if o := w.pc.info.Uses[id]; o != nil {
+				objs[i] = o
+				fresh[i] = w.locals[o]
+			}
+		}
+	}
+	return objs, fresh
+}
+
+// baseVarOf returns the variable an access path starts from.
+func (w *walker) baseVarOf(e ast.Expr) types.Object {
+	for {
+		switch x := e.(type) {
+		case *ast.ParenExpr:
+			e = x.X
+		case *ast.StarExpr:
+			e = x.X
+		case *ast.SelectorExpr:
+			e = x.X
+		case *ast.Ident:
+			return w.pc.info.Uses[x]
+		default:
+			return nil
+		}
+	}
+}
+
 func (w *walker) baseIsFresh(e ast.Expr) bool {
 	for {
 		switch x := e.(type) {
@@ -934,6 +974,8 @@ func (w *walker) access(x *ast.SelectorExpr, write bool) {
 		Func: w.fnName, Root: w.curRoot, Multi: true, lex: w.cur(), unit: w.unit, obj: fv, pos: x.Sel.Pos(), roots: &w.roots}
 	if w.initCtx || w.baseIsFresh(x.X) {
 		r.Exempt = "init"
+	} else {
+		r.baseVar = w.baseVarOf(x.X)
 	}
 	w.common(r, write)
 	w.pc.rows = append(w.pc.rows, r)
@@ -1061,6 +1103,81 @@ func (pc *pkgCtx) solve() {
 		}
 		if !changed {
 			break
+		}
+	}
+	// fresh parameters: a parameter of an unexported function is an object under construction if at
+	// every call site (all of them direct, none a go statement) the argument is a local of the caller
+	// that holds an object under construction, or such a parameter of the caller (fixed point from
+	// "all fresh" downwards). Accesses through it are `init`, exactly as through the caller's local:
+	// extracting the body of a retry loop into a helper must not change the verdict.
+	paramIdx := func(u *unit, v types.Object) int {
+		if u == nil || u.decl == nil || u.decl.Type.Params == nil || v == nil {
+			return -1
+		}
+		i := 0
+		for _, f := range u.decl.Type.Params.List {
+			for _, nm := range f.Names {
+				if pc.info.Defs[nm] == v {
+					return i
+				}
+				i++
+			}
+			if len(f.Names) == 0 {
+				i++
+			}
+		}
+		return -1
+	}
+	freshParam := map[*unit]map[int]bool{}
+	isFreshParam := func(u *unit, v types.Object) bool {
+		i := paramIdx(u, v)
+		return i >= 0 && freshParam[u] != nil && freshParam[u][i]
+	}
+	for o, u := range pc.units {
+		if u.exported || u.decl == nil || len(sitesOf[o]) == 0 {
+			continue
+		}
+		n := u.decl.Type.Params.NumFields()
+		m := map[int]bool{}
+		for i := 0; i < n; i++ {
+			m[i] = true
+		}
+		freshParam[u] = m
+	}
+	for iter := 0; iter < 20; iter++ {
+		changed := false
+		for o, u := range pc.units {
+			m := freshParam[u]
+			if m == nil {
+				continue
+			}
+			for i := range m {
+				if !m[i] {
+					continue
+				}
+				ok := true
+				for _, st := range sitesOf[o] {
+					if !st.direct || st.isGo || i >= len(st.argNew) {
+						ok = false
+						break
+					}
+					if !st.argNew[i] && !isFreshParam(st.caller, st.argObj[i]) {
+						ok = false
+						break
+					}
+				}
+				if !ok {
+					m[i], changed = false, true
+				}
+			}
+		}
+		if !changed {
+			break
+		}
+	}
+	for _, r := range pc.rows {
+		if r.Exempt == "" && r.baseVar != nil && isFreshParam(r.unit, r.baseVar) {
+			r.Exempt = "init"
 		}
 	}
 	for _, r := range pc.rows {
